@@ -93,7 +93,7 @@ func RunC18(casesPath, tracePath, statsPath string, seed int64) error {
 			coin := sdk.NewInt64Coin(Denom, m.Amt)
 			switch m.Kind {
 			case "create":
-				msgs = append(msgs, &stakingtypes.MsgCreateValidator{ValidatorAddress: v.ValAddr.String(), Value: coin})
+				msgs = append(msgs, &stakingtypes.MsgCreateValidator{ValidatorAddress: sdk.ValAddress(rich.Addr).String(), Value: coin})
 			case "delegate":
 				msgs = append(msgs, stakingtypes.NewMsgDelegate(rich.Addr.String(), v.ValAddr.String(), coin))
 			case "redelegate":
@@ -115,13 +115,24 @@ func RunC18(casesPath, tracePath, statsPath string, seed int64) error {
 			})
 			return err
 		})
-		rec := Rec{"ev": "AnteCase", "hist": -(1 + n/400), "base": NumI64(cs.Base), "bonded": NumInt(bonded), "tx": txj, "ok": res.Ok && passed}
+		// the same messages as a real transaction signed by their sender, through the ante handler the production app
+		// has installed (the whole decorator chain in its production order)
+		var full PhaseResult
+		if stx, err := c.SignedTx(rich, 2_000_000, msgs...); err != nil {
+			full = PhaseResult{Ok: false, Err: "cannot build tx: " + err.Error()}
+		} else {
+			full = c.Ante(stx)
+		}
+		rec := Rec{"ev": "AnteCase", "hist": -(1 + n/400), "base": NumI64(cs.Base), "bonded": NumInt(bonded), "tx": txj, "ok": full.Ok, "okdec": res.Ok && passed}
 		if !res.Ok {
-			rec["err"] = errClass(res.Err)
+			rec["errdec"] = errClass(res.Err)
+		}
+		if !full.Ok {
+			rec["err"] = errClass(full.Err)
 		}
 		tr.Emit(rec)
 		n++
-		if res.Ok && passed {
+		if full.Ok {
 			admitted++
 		}
 		if len(samples) < 4 && n%977 == 5 {
